@@ -1,4 +1,224 @@
+(* Proofs about Model/Process.v (property C12). *)
 From UV Require Import Lib.Base Model.Process.
-Local Open Scope Z_scope.
-Lemma decode_exit_0 : decode 0 = (0, 0).
-Proof. reflexivity. Qed.
+
+(* ------------------------------------------------------------------ *)
+(* A. descriptor tables                                                 *)
+(* ------------------------------------------------------------------ *)
+Lemma get_nil fd : get [] fd = None.
+Proof. unfold get. destruct fd; reflexivity. Qed.
+
+Lemma get_set_same t fd v : get (set t fd v) fd = v.
+Proof.
+  revert t. induction fd as [|n IH]; intros [|x r]; simpl; auto.
+  - apply IH.
+  - apply IH.
+Qed.
+
+Lemma get_set_other t fd fd' v : fd <> fd' -> get (set t fd v) fd' = get t fd'.
+Proof.
+  revert t fd'. induction fd as [|n IH]; intros [|x r] [|m] H; simpl; try congruence; auto.
+  - destruct m; reflexivity.
+  - change (get (set [] n v) m = None). rewrite IH by congruence. apply get_nil.
+  - change (get (set r n v) m = get r m). apply IH. congruence.
+Qed.
+
+Lemma get_set t fd fd' v :
+  get (set t fd v) fd' = if (fd =? fd')%nat then v else get t fd'.
+Proof.
+  destruct (Nat.eqb_spec fd fd') as [->|H].
+  - apply get_set_same.
+  - apply get_set_other; auto.
+Qed.
+
+Lemma lff_spec s : forall i min,
+  let r := lowest_free_from s i min in
+  i <= r /\ min <= r /\ nth (r - i) s None = None /\
+  forall j, i <= j < r -> min <= j -> nth (j - i) s None <> None.
+Proof.
+  induction s as [|x s IH]; intros i min; cbn [lowest_free_from].
+  - cbv zeta. repeat split; try lia.
+    all: try (destruct (Nat.max i min - i); reflexivity).
+    all: try (intros; lia).
+  - destruct ((min <=? i) && is_none x) eqn:E.
+    + cbv zeta. apply andb_true_iff in E as [E1 E2]. apply Nat.leb_le in E1.
+      repeat split; try lia.
+      * rewrite Nat.sub_diag. simpl. destruct x; [discriminate|reflexivity].
+      * intros j H. lia.
+    + specialize (IH (S i) min). cbv zeta in IH |- *.
+      destruct IH as (A & B & C & D).
+      set (r := lowest_free_from s (S i) min) in *.
+      repeat split; try lia.
+      * replace (r - i) with (S (r - S i)) by lia. exact C.
+      * intros j H1 H2. destruct (Nat.eq_dec j i) as [->|Hne].
+        -- rewrite Nat.sub_diag. simpl. apply andb_false_iff in E as [E|E].
+           ++ apply Nat.leb_gt in E. lia.
+           ++ destruct x; [discriminate|discriminate].
+        -- replace (j - i) with (S (j - S i)) by lia. apply D; lia.
+Qed.
+
+Lemma lowest_free_spec t min :
+  let r := lowest_free t min in
+  min <= r /\ get t r = None /\ forall j, min <= j < r -> get t j <> None.
+Proof.
+  cbv zeta. unfold lowest_free, get.
+  pose proof (lff_spec t 0 min) as H. cbv zeta in H.
+  destruct H as (_ & B & C & D).
+  rewrite Nat.sub_0_r in C. repeat split; auto.
+  intros j Hj. specialize (D j). rewrite Nat.sub_0_r in D. apply D; lia.
+Qed.
+
+Lemma lowest_free_unique t min r :
+  min <= r -> get t r = None -> (forall j, min <= j < r -> get t j <> None) ->
+  lowest_free t min = r.
+Proof.
+  intros H1 H2 H3.
+  destruct (lowest_free_spec t min) as (A & B & C).
+  destruct (Nat.lt_trichotomy (lowest_free t min) r) as [L|[E|G]]; auto.
+  - exfalso. apply (H3 (lowest_free t min)); auto.
+  - exfalso. apply (C r); auto.
+Qed.
+
+Lemma alloc_spec t min f cx t' r :
+  alloc t min f cx = (t', r) ->
+  min <= r /\ get t r = None /\ get t' r = Some (mkE f cx) /\
+  (forall d, d <> r -> get t' d = get t d) /\
+  (forall j, min <= j < r -> get t j <> None).
+Proof.
+  unfold alloc. intros H. inversion H; subst. clear H.
+  destruct (lowest_free_spec t min) as (A & B & C).
+  repeat split; auto.
+  - apply get_set_same.
+  - intros d Hd. apply get_set_other. auto.
+Qed.
+
+Lemma get_exec t d : get (exec t) d = exec_entry (get t d).
+Proof.
+  unfold get, exec. revert d. induction t as [|x t IH]; intros [|d]; simpl; auto.
+Qed.
+
+Lemma get_close t fd d : get (close t fd) d = if (fd =? d)%nat then None else get t d.
+Proof. unfold close. apply get_set. Qed.
+
+(* ------------------------------------------------------------------ *)
+(* B. pass 1                                                            *)
+(* ------------------------------------------------------------------ *)
+(* [t'] is [t] plus close-on-exec descriptors on numbers >= sc that were free *)
+Definition ext (sc : nat) (t t' : tbl) : Prop :=
+  forall d, get t' d = get t d \/
+            (sc <= d /\ get t d = None /\ exists f, get t' d = Some (mkE f true)).
+
+Lemma ext_refl sc t : ext sc t t.
+Proof. intros d. left. reflexivity. Qed.
+
+Lemma ext_trans sc a b c : ext sc a b -> ext sc b c -> ext sc a c.
+Proof.
+  intros H1 H2 d. destruct (H2 d) as [E|(L & N & f & E)].
+  - rewrite E. apply H1.
+  - destruct (H1 d) as [E1|(L1 & N1 & f1 & E1)].
+    + right. repeat split; auto. congruence. eauto.
+    + congruence.
+Qed.
+
+Lemma ext_some sc t t' d e : ext sc t t' -> get t d = Some e -> get t' d = Some e.
+Proof. intros H G. destruct (H d) as [E|(_ & N & _)]; congruence. Qed.
+
+Lemma ext_low sc t t' d : ext sc t t' -> d < sc -> get t' d = get t d.
+Proof. intros H L. destruct (H d) as [E|(L1 & _)]; auto. lia. Qed.
+
+Lemma ext_alloc sc t f t' r : alloc t sc f true = (t', r) -> ext sc t t'.
+Proof.
+  intros H. apply alloc_spec in H as (A & B & C & D & _).
+  intros d. destruct (Nat.eq_dec d r) as [->|Hne].
+  - right. repeat split; eauto.
+  - left. apply D. auto.
+Qed.
+
+Lemma pass1_spec sc : forall us fd t t' us',
+  fd + length us <= sc ->
+  pass1 sc fd us t = Ok (t', us') ->
+  ext sc t t' /\ length us' = length us /\
+  (forall k, nth_error us k = Some None -> nth_error us' k = Some None) /\
+  (forall k u, nth_error us k = Some (Some u) ->
+     exists u', nth_error us' k = Some (Some u') /\
+       ((fd + k <= u /\ u' = u) \/
+        (u < fd + k /\ sc <= u' /\
+         exists e, get t u = Some e /\ get t' u' = Some (mkE (e_file e) true)))).
+Proof.
+  induction us as [|u0 rest IH]; intros fd t t' us' Hb H; cbn [pass1] in H.
+  - inversion H; subst. split; [apply ext_refl|]. split; [reflexivity|].
+    split; intros k; destruct k; simpl; discriminate.
+  - cbn [length] in Hb.
+    destruct u0 as [use_fd|].
+    + destruct (use_fd <? fd)%nat eqn:Elt.
+      * apply Nat.ltb_lt in Elt.
+        unfold dupfd_cloexec in H. destruct (get t use_fd) as [e|] eqn:Eg; [|discriminate].
+        destruct (alloc t sc (e_file e) true) as [t1 r] eqn:Ea.
+        destruct (pass1 sc (S fd) rest t1) as [[t2 l]|] eqn:Er; [|discriminate].
+        inversion H; subst. clear H.
+        apply IH in Er as (X1 & X2 & X3 & X4); [|lia].
+        pose proof (ext_alloc _ _ _ _ _ Ea) as X0.
+        apply alloc_spec in Ea as (A & B & C & D & _).
+        split; [eapply ext_trans; eauto|]. split; [simpl; congruence|].
+        split.
+        -- intros [|k] Hk; simpl in *; [discriminate|auto].
+        -- intros [|k] u Hk; simpl in *.
+           ++ inversion Hk; subst. exists r. split; auto. right.
+              split; [lia|]. split; [auto|]. exists e. split; auto.
+              eapply ext_some; eauto.
+           ++ destruct (X4 k u Hk) as (u' & U1 & U2). exists u'. split; auto.
+              destruct U2 as [(U2 & U3)|(U2 & U3 & e' & U4 & U5)].
+              ** left. split; [lia|auto].
+              ** right. split; [lia|]. split; auto. exists e'. split; auto.
+                 assert (Hk' : k < length rest) by (apply nth_error_Some; congruence).
+                 rewrite <- (ext_low sc t t1 u X0); [auto|lia].
+      * apply Nat.ltb_ge in Elt.
+        destruct (pass1 sc (S fd) rest t) as [[t2 l]|] eqn:Er; [|discriminate].
+        inversion H; subst. clear H.
+        apply IH in Er as (X1 & X2 & X3 & X4); [|lia].
+        split; auto. split; [simpl; congruence|].
+        split.
+        -- intros [|k] Hk; simpl in *; [discriminate|auto].
+        -- intros [|k] u Hk; simpl in *.
+           ++ inversion Hk; subst. exists u. split; auto. left. split; [lia|auto].
+           ++ destruct (X4 k u Hk) as (u' & U1 & U2). exists u'. split; auto.
+              destruct U2 as [(U2 & U3)|(U2 & U3 & e' & U4 & U5)].
+              ** left. split; [lia|auto].
+              ** right. split; [lia|]. split; auto. exists e'. split; auto.
+    + destruct (pass1 sc (S fd) rest t) as [[t2 l]|] eqn:Er; [|discriminate].
+      inversion H; subst. clear H.
+      apply IH in Er as (X1 & X2 & X3 & X4); [|lia].
+      split; auto. split; [simpl; congruence|].
+      split.
+      * intros [|k] Hk; simpl in *; auto.
+      * intros [|k] u Hk; simpl in *; [discriminate|].
+        destruct (X4 k u Hk) as (u' & U1 & U2). exists u'. split; auto.
+        destruct U2 as [(U2 & U3)|(U2 & U3 & e' & U4 & U5)].
+        -- left. split; [lia|auto].
+        -- right. split; [lia|]. split; auto. exists e'. split; auto.
+Qed.
+
+(* pass 1 cannot fail when every named source is open *)
+Lemma pass1_ok sc : forall us fd t,
+  fd + length us <= sc ->
+  (forall k u, nth_error us k = Some (Some u) -> u < fd + k -> get t u <> None) ->
+  exists t' us', pass1 sc fd us t = Ok (t', us').
+Proof.
+  induction us as [|u0 rest IH]; intros fd t Hb Hs; cbn [pass1].
+  - eauto.
+  - cbn [length] in Hb. destruct u0 as [use_fd|].
+    + destruct (use_fd <? fd)%nat eqn:Elt.
+      * apply Nat.ltb_lt in Elt. unfold dupfd_cloexec.
+        destruct (get t use_fd) as [e|] eqn:Eg.
+        -- destruct (alloc t sc (e_file e) true) as [t1 r] eqn:Ea.
+           pose proof (ext_alloc _ _ _ _ _ Ea) as X0.
+           destruct (IH (S fd) t1) as (t2 & l & E); [lia| |rewrite E; eauto].
+           intros k u Hk Hlt.
+           assert (Hk' : k < length rest) by (apply nth_error_Some; congruence).
+           rewrite (ext_low sc t t1 u X0) by lia.
+           apply (Hs (S k) u); simpl; auto. lia.
+        -- exfalso. apply (Hs 0 use_fd); simpl; auto. lia.
+      * destruct (IH (S fd) t) as (t2 & l & E); [lia| |rewrite E; eauto].
+        intros k u Hk Hlt. apply (Hs (S k) u); simpl; auto. lia.
+    + destruct (IH (S fd) t) as (t2 & l & E); [lia| |rewrite E; eauto].
+      intros k u Hk Hlt. apply (Hs (S k) u); simpl; auto. lia.
+Qed.
